@@ -294,3 +294,17 @@ pub fn run_script(src: &str, cfg: &RunCfg) -> Obs {
     let mut inst = Instance::new(cfg.clone());
     inst.run(src)
 }
+
+/// runs a closure that returns a short status string, converting panics into "panic:<msg>"
+pub fn guarded(f: impl FnOnce() -> String) -> String {
+    match std::panic::catch_unwind(std::panic::AssertUnwindSafe(f)) {
+        Ok(s) => s,
+        Err(p) => {
+            if p.downcast_ref::<verif_clock::BudgetExhausted>().is_some() {
+                "budget".into()
+            } else {
+                format!("panic:{}", take_last_panic())
+            }
+        }
+    }
+}
